@@ -12,6 +12,10 @@ Z3_TIMEOUT_MS = int(os.environ.get("PYVC_Z3_MS", "10000"))
 CVC5_TIMEOUT_S = int(os.environ.get("PYVC_CVC5_S", "20"))
 FEAS_TIMEOUT_MS = int(os.environ.get("PYVC_FEAS_MS", "150"))
 RETRY_FACTOR = int(os.environ.get("PYVC_RETRY_FACTOR", "4"))
+# retries exist so that a busy machine does not turn a discharged obligation into an undecided one; a tree on which many obligations are
+# genuinely undecidable must not cost a retry each: every worker process has a pool of retry time
+RETRY_POOL_S = int(os.environ.get("PYVC_RETRY_POOL_S", "150"))
+RETRY_SPENT_S = 0.0
 
 _theories = []   # callables: list[z3 Bool] -> list[z3 Bool] (lemma instances)
 
@@ -145,7 +149,9 @@ def prove(hyps, goal, timeout_ms=None, use_cvc5=True, want_model=True):
             return "proved", "cvc5", None, dt
         if c == "sat":
             return "failed", "cvc5", None, dt
-    if RETRY_FACTOR > 1 and ("timeout" in reason or "canceled" in reason):
+    global RETRY_SPENT_S
+    if RETRY_FACTOR > 1 and ("timeout" in reason or "canceled" in reason) and RETRY_SPENT_S < RETRY_POOL_S:
+        t_retry = time.time()
         # a time-out, not incompleteness: one more attempt with a larger budget and another seed, so that a busy machine
         # does not turn a discharged obligation into an undecided one
         s3 = z3.Solver()
@@ -157,6 +163,7 @@ def prove(hyps, goal, timeout_ms=None, use_cvc5=True, want_model=True):
             s3.add(f)
         s3.add(z3.Not(goal))
         r3 = s3.check()
+        RETRY_SPENT_S += time.time() - t_retry
         dt = time.time() - t0
         if r3 == z3.unsat:
             return "proved", "z3(retry)", None, dt
